@@ -3,6 +3,7 @@ import Dawn.Proofs.RunnerDeadlock
 import Dawn.Proofs.RunnerProgress
 import Dawn.Proofs.RunnerOrder
 import Dawn.Proofs.RunnerGate
+import Dawn.Proofs.RunnerStatusWait
 /-!
 # Runner: remaining helper facts — stability of finished targets, schedules as witnesses of reachability
 -/
